@@ -223,6 +223,10 @@ def berOp : Tok → String
     (match pTy (ty.length + 1) ty.toList, pParams params.toList with
      | some (t, []), some (p, []) => if inDomain t p then "in" else "out"
      | _, _ => "bad-type")
+  | ["z0", ty, params, arg] =>
+    (match pTy (ty.length + 1) ty.toList, pParams params.toList, hexCs (if arg = "-" then [] else arg.toList) with
+     | some (t, []), some (p, []), some b => if zeroLenPrim t p b then "1" else "0"
+     | _, _, _ => "bad-type")
   | "H" :: _mode :: items => berEach "R" items
   | "V" :: _goroutines :: _stride :: items => berEach "U" items
   | kind :: ty :: params :: rest =>
